@@ -1,16 +1,11 @@
 (* Real-number lemmas for M_line.v (C18). *)
 From Coq Require Import ZArith Reals Lra Psatz List Bool Lia Nsatz.
 From PW Require Import Num NumR Vec NpList Result.
-From PW.model Require Import M_line.
+From PW.model Require Import M_line M_line_spec.
 From PW.proofs Require Import P_vec P_nplist.
 Import ListNotations.
 Local Open Scope R_scope.
 
-Definition v0 : vec3 R := V3 0 0 0.
-(* the point p + s d *)
-Definition line_pt (p d : vec3 R) (s : R) : vec3 R := vadd ROps p (vscale ROps s d).
-(* x lies on the line through p and q *)
-Definition on_line (p q x : vec3 R) : Prop := exists s, x = line_pt p (vsub ROps q p) s.
 
 Tactic Notation "dv" constr(a) ident(a1) ident(a2) ident(a3) := destruct a as [a1 a2 a3].
 
@@ -96,18 +91,42 @@ Proof.
 Qed.
 
 (* ---- Line ------------------------------------------------------------------------------------------------ *)
+Lemma almost_zero_v0 : almost_zero ROps v0 = true.
+Proof.
+  unfold almost_zero, atol, nfrac, v0; rops. cbn [vx vy vz]. rewrite Rabs_R0.
+  rewrite (proj2 (Rleb_true 0 _)) by lra. reflexivity.
+Qed.
 Lemma line_rejects_zero_direction p :
   line_ctor ROps p v0 = Raise ValueError /\
   (forall a l, line_ctor ROps p a = Ok l -> a <> v0 /\ l = MkLine p a) /\
   (forall q, line_from_points ROps p q = line_ctor ROps p (vsub ROps q p)) /\
   (forall a, reference_points ROps (MkLine p a) = (p, vadd ROps p a)).
 Proof.
-  assert (Hz : almost_zero ROps v0 = true).
-  { unfold almost_zero, atol, nfrac, v0; rops. cbn [vx vy vz]. rewrite Rabs_R0.
-    rewrite (proj2 (Rleb_true 0 (1 / 100000000))) by lra. reflexivity. }
+  pose proof almost_zero_v0 as Hz.
   split; [unfold line_ctor; rewrite Hz; reflexivity|]. split; [|split; reflexivity].
   intros a l H. unfold line_ctor in H. destruct (almost_zero ROps a) eqn:E; [discriminate|]. injection H as <-.
   split; [|reflexivity]. intros ->. rewrite Hz in E. discriminate.
+Qed.
+(* which directions Line accepts: exactly those with a component above the (binary64) constant 1e-8 in absolute value *)
+Lemma line_accepts_iff p a :
+  (almost_zero ROps a = false -> line_ctor ROps p a = Ok (MkLine p a)) /\
+  (almost_zero ROps a = true -> line_ctor ROps p a = Raise ValueError) /\
+  (almost_zero ROps a = false <->
+   atol ROps < Rabs (vx a) \/ atol ROps < Rabs (vy a) \/ atol ROps < Rabs (vz a)).
+Proof.
+  split; [intros H; unfold line_ctor; rewrite H; reflexivity|]. split; [intros H; unfold line_ctor; rewrite H; reflexivity|].
+  unfold almost_zero; rops. destruct (Rleb_spec (Rabs (vx a)) (atol ROps)), (Rleb_spec (Rabs (vy a)) (atol ROps)),
+    (Rleb_spec (Rabs (vz a)) (atol ROps)); cbn [andb]; split; intros H; try reflexivity; try discriminate;
+    try (destruct H as [H|[H|H]]; lra); auto; try (left; lra); try (right; left; lra); try (right; right; lra).
+Qed.
+(* Line also refuses non-zero directions: every component at most 1e-8 in absolute value *)
+Lemma line_rejects_tiny_nonzero : exists p a, a <> v0 /\ line_ctor ROps p a = Raise ValueError.
+Proof.
+  exists v0, (V3 (1 / 1000000000) 0 0). split.
+  - intros E. unfold v0 in E. injection E as E. lra.
+  - unfold line_ctor, almost_zero, atol, nfrac; rops. cbn [vx vy vz]. rewrite Rabs_R0.
+    rewrite (Rabs_pos_eq (1 / 1000000000)) by lra.
+    rewrite (proj2 (Rleb_true (1 / 1000000000) _)) by lra. rewrite (proj2 (Rleb_true 0 _)) by lra. reflexivity.
 Qed.
 
 (* ---- collinearity ---------------------------------------------------------------------------------------- *)
@@ -308,18 +327,25 @@ Proof.
 Qed.
 
 (* ---- Line.intersect_line delegates ------------------------------------------------------------------------------ *)
-Lemma line_intersect_line_delegates l l' :
+Lemma line_methods_delegate l l' p :
+  line_project ROps l p = project_point_to_line ROps p (lref l) (lalong l) /\
   line_intersect_line ROps l l' =
-  intersect_lines ROps (lref l) (vadd ROps (lref l) (lalong l)) (lref l') (vadd ROps (lref l') (lalong l')).
-Proof. reflexivity. Qed.
+    intersect_lines ROps (lref l) (vadd ROps (lref l) (lalong l)) (lref l') (vadd ROps (lref l') (lalong l')).
+Proof. split; reflexivity. Qed.
+(* lines built by from_points: intersect_line is intersect_lines on the four defining points (p + (q - p) = q) *)
+Lemma from_points_intersect p0 q0 p1 q1 l l' :
+  line_from_points ROps p0 q0 = Ok l -> line_from_points ROps p1 q1 = Ok l' ->
+  line_intersect_line ROps l l' = intersect_lines ROps p0 q0 p1 q1.
+Proof.
+  intros H H'. destruct (line_rejects_zero_direction p0) as (_ & A & B & _).
+  destruct (line_rejects_zero_direction p1) as (_ & A' & B' & _).
+  rewrite B in H. rewrite B' in H'. destruct (A _ _ H) as [_ ->]. destruct (A' _ _ H') as [_ ->].
+  unfold line_intersect_line, reference_points. cbn [lref lalong fst snd].
+  replace (vadd ROps p0 (vsub ROps q0 p0)) with q0 by (vec_eq; ring).
+  replace (vadd ROps p1 (vsub ROps q1 p1)) with q1 by (vec_eq; ring). reflexivity.
+Qed.
 
 (* ---- intersect_2d_lines ---------------------------------------------------------------------------------------------- *)
-Definition on_line2 (p q x : R * R) : Prop :=
-  exists s, fst x = fst p + s * (fst q - fst p) /\ snd x = snd p + s * (snd q - snd p).
-(* directions are parallel *)
-Definition parallel2 (p0 q0 p1 q1 : R * R) : Prop :=
-  (fst q0 - fst p0) * (snd q1 - snd p1) - (snd q0 - snd p0) * (fst q1 - fst p1) = 0.
-
 Lemma intersect_2d_spec p0 q0 p1 q1 :
   (parallel2 p0 q0 p1 q1 -> intersect_2d_lines ROps p0 q0 p1 q1 = None) /\
   (~ parallel2 p0 q0 p1 q1 ->
@@ -344,4 +370,13 @@ Proof.
       assert (X2 : m2 * dt = - (b2 - a2) * (c2 * (u1 - c1) - (u2 - c2) * c1) - - (u2 - c2) * (a2 * (b1 - a1) - (b2 - a2) * a1)).
       { unfold dt. subst m2. nsatz. }
       f_equal; (apply Rmult_eq_reg_r with dt; [|exact Hd]); [rewrite X1|rewrite X2]; field; exact Hd.
+Qed.
+
+(* power-of-two rescaling of a direction before it is normalised (fixes/C18-projection-extreme-lengths.diff) does not
+   change the unit vector: used by the traced-kernel ties *)
+Lemma sqrt_scale3 x y z c : 0 < c ->
+  sqrt (x * c * (x * c) + y * c * (y * c) + z * c * (z * c)) = c * sqrt (x * x + y * y + z * z).
+Proof.
+  intros Hc. replace (x * c * (x * c) + y * c * (y * c) + z * c * (z * c)) with ((c * c) * (x * x + y * y + z * z)) by ring.
+  rewrite sqrt_mult; [|nra|nra]. rewrite sqrt_square by lra. reflexivity.
 Qed.
